@@ -195,6 +195,14 @@ pub fn interpret(gr: &Graph, follow: bool, max: u32) -> (Vec<usize>, Outcome) {
 
 pub fn node_response(n: &Node) -> Script {
     let mut head = format!("HTTP/1.1 {} X\r\n", n.status);
+    // (no draw) connection options: `close`, and - legal, if odd - options that happen to be spelled like
+    // other fields of the same head.  They concern the connection, not what the response says
+    match n.url.len() % 5 {
+        0 => head.push_str("Connection: close\r\n"),
+        1 => head.push_str("Connection: close, Location\r\n"),
+        2 => head.push_str("connection: keep-alive, location, content-length\r\nKeep-Alive: timeout=5\r\n"),
+        _ => {}
+    }
     if let Some(l) = &n.location {
         head.push_str(&format!("Location: {}\r\n", l));
     }
@@ -265,6 +273,76 @@ pub fn ip_of(host: &str) -> String {
         return host.to_string();
     }
     HOSTS.iter().find(|(h, _)| *h == host).map(|(_, ip)| ip.to_string()).unwrap_or_default()
+}
+
+/// Bounds and chains far beyond the handful of hops of the main family: a redirect bound of 50, 51, 64, 120
+/// or 1000, against a straight chain that stays just inside it, ends exactly at it, or overshoots it, or
+/// against a cycle - every number from the statement ("at most max redirects", "max + 1 requests") holds at
+/// this size too.
+fn long_chain_family(g: &mut G, ctx: &RunCtx) -> RunReport {
+    g.probe("redirect-bound-and-chain-beyond-fifty");
+    let max = *g.pick(&[50u32, 51, 64, 120, 1000]);
+    let cyc = g.chance(1, 4);
+    let hops: usize = if cyc { 2 + g.usize_below(3) } else { ((max.min(130) as i64) + *g.pick(&[-1i64, 0, 1, 3])).max(1) as usize };
+    let hops = hops.min(135);
+    let mut nodes: Vec<Node> = Vec::new();
+    for i in 0..hops {
+        let url = format!("http://a.test/l{}", i);
+        let next = if cyc && i + 1 == hops { 0 } else { i + 1 };
+        nodes.push(Node { url, status: [301u16, 302, 303, 307, 308][i % 5], location: Some(format!("/l{}", next)), form: "absolute-path", next: Next::Node(next), body_flaw: 0 });
+    }
+    if !cyc {
+        nodes.push(Node { url: format!("http://a.test/l{}", hops), status: 200, location: None, form: "final", next: Next::Final, body_flaw: 0 });
+    }
+    let gr = Graph { nodes };
+    let sim = Sim::new(ctx.sim_config());
+    let seen = Arc::new(Mutex::new(Seen::default()));
+    install_graph(&sim, &gr, &seen);
+    let on_session = g.chance(1, 2);
+    let out = sim.run(|| {
+        let r = if on_session {
+            let mut s = attohttpc::Session::new();
+            s.proxy_settings(attohttpc::ProxySettings::builder().build());
+            s.max_redirections(max);
+            s.get("http://a.test/l0").send()
+        } else {
+            attohttpc::get("http://a.test/l0").max_redirections(max).send()
+        };
+        match r {
+            Ok(r) => Ok((r.status().as_u16(), r.url().to_string())),
+            Err(e) => Err(err_kind(&e)),
+        }
+    });
+    let mut stats = Stats::default();
+    stats.absorb(&out.history);
+    let (want_reqs, want) = interpret(&gr, true, max);
+    let n_reqs = seen.lock().unwrap().requests.len();
+    let verdict = match &out.result {
+        None => violation("hang", "run torn down"),
+        Some(Err(m)) => violation("panic", m.clone()),
+        Some(Ok(res)) => {
+            if n_reqs != want_reqs.len() {
+                violation(
+                    "long-chain:request-count",
+                    format!("{} requests sent, the reference sends {} (max_redirections={}, {} of {} hops, result {:?})", n_reqs, want_reqs.len(), max, if cyc { "a cycle" } else { "a chain" }, hops, res),
+                )
+            } else {
+                match (res, &want) {
+                    (Ok((st, url)), Outcome::Ok { status, url: wurl }) if st == status && canon(url) == *wurl => Verdict::Pass,
+                    (Err(k), Outcome::Err(kinds)) if kinds.iter().any(|x| x == k) => Verdict::Pass,
+                    (got, want) => violation("long-chain:outcome", format!("result {:?}, reference {:?} (max_redirections={}, {} hops{})", got, want, max, hops, if cyc { ", cyclic" } else { "" })),
+                }
+            }
+        }
+    };
+    RunReport {
+        verdict,
+        shape: format!("long-chain/max={}/hops={}/cyc={}/session={}", max, hops, cyc, on_session),
+        nontrivial: true,
+        stats,
+        sched_tape: out.sched_tape,
+        describe: if ctx.describe { format!("max_redirections={} against {} of {} hops", max, if cyc { "a cycle" } else { "a chain" }, hops) } else { String::new() },
+    }
 }
 
 pub fn scenario(g: &mut G, ctx: &RunCtx) -> RunReport {
@@ -363,6 +441,10 @@ pub fn scenario(g: &mut G, ctx: &RunCtx) -> RunReport {
     };
     let (follow, eff_max) = eff(&prog);
     let prog2 = prog.clone();
+    // drawn last: recorded tapes keep their meaning
+    if g.chance(1, 40) {
+        return long_chain_family(g, ctx);
+    }
     let out = sim.run(|| {
         let mut session = attohttpc::Session::new();
         session.proxy_settings(attohttpc::ProxySettings::builder().build());
